@@ -594,6 +594,9 @@ func (e *SpecEnv) call(n *ast.CallExpr) TV {
 			e.fail("typeis: unknown type")
 		}
 		return TV{T: fmt.Sprintf("(= (itag %s) %d)", v.T, vc.ctx.tagOf(t)), Ty: tBool}
+	case "same":
+		a, b := e.unify(arg(0), arg(1))
+		return TV{T: fmt.Sprintf("(= %s %s)", a.T, b.T), Ty: tBool}
 	case "isNaN":
 		return TV{T: "(fp.isNaN " + arg(0).T + ")", Ty: tBool}
 	case "isInf":
